@@ -684,6 +684,8 @@ class ComplexModelMeta(with_metaclass(Prepareable, type(ModelBase))):
             eattr._subclasses.append(self)
             if self.Attributes._subclasses is eattr._subclasses:
                 self.Attributes._subclasses = None
+            if self.Attributes._variants is eattr._variants:
+                self.Attributes._variants = None
 
         # sanitize fields
         for k, v in type_info.items():
